@@ -2,6 +2,7 @@ use crate::Ctx;
 pub mod c01;
 pub mod c02;
 pub mod c03;
+pub mod c04;
 pub mod c05;
 pub mod c06;
 pub mod c07;
@@ -18,6 +19,7 @@ pub fn run(ctx: &mut Ctx, suite: &str) {
         "c02" => c02::run(ctx),
         "c14r" => c02::run_c14r(ctx),
         "c03" => c03::run(ctx),
+        "c04" => c04::run(ctx),
         "c05" => c05::run(ctx),
         "c20c" => c05::run_c20c(ctx),
         "c03b" => c05::run_c03b(ctx),
@@ -42,6 +44,7 @@ pub fn replay(ctx: &mut Ctx, tag: &str, args: &[&str]) {
     match tag {
         "c01" | "c02" | "c03" | "c15r" | "c14r" => req::case(ctx, tag, args[0], args[1], args[2], args[3], args[4], args[5]),
         "c01s" => req::case_seq(ctx, args[0], args[1], args[2], args[3], args[4]),
+        "c04" | "c09" | "c10" => c04::case(ctx, tag, args[0], args[1], args[2], args[3]),
         "c05" => c05::case(ctx, args[0], args[1]),
         "c06" | "c08" => c06::case(ctx, tag, args),
         "c07" => c07::case(ctx, args[0], args[1], args[2], args[3], args[4]),
